@@ -531,11 +531,24 @@ def check_mediation(ctx, rep, rule61="R06.1", rule62="R06.2"):
         return isinstance(c.func, ast.Name) and c.func.id not in ("str", "type", "getattr", "bytes", "isinstance") and \
             len(c.args) >= 2 and A.src(c.args[0]) == p_obj and A.src(c.args[1]) == p_name
     acc_calls = [n for n in g.live if n.kind == "stmt" and n.ast is not None and any(access_call(c) for c in A.calls(n.ast))]
-    rep.floor(rule61, "mediated access call accessor(obj, name, *args) in _access_attr", len(acc_calls), 1)
+    gate_bad = _access_gate_model(ctx, fa)
+    if gate_bad is None:
+        rep.floor(rule61, "mediated access call accessor(obj, name, *args) in _access_attr", len(acc_calls), 1)
     checks = [n for n in g.live if n.kind == "stmt" and isinstance(n.ast, ast.Assign) and
               A.find_calls(n.ast, "self._check_attr") and isinstance(n.ast.targets[0], ast.Name)
               and n.ast.targets[0].id == p_name]
-    rep.ob(rule61, "_access_attr: the policy is consulted", bool(checks),
+    # the gate decided by evaluation (sa/miniinterp.py) whenever _access_attr can be interpreted; the structural obligations
+    # below then only corroborate (a failing structural reading of a function the model accepts is not reported)
+    if gate_bad is not None:
+        rep.ob(rule61, "_access_attr: hook-bearing objects get their own type-level hook, everything else passes _check_attr once and "
+               "the default operation is applied to the name it returned", not gate_bad,
+               "8 scenarios evaluated (hook / no hook, switches off, bytes and non-text names, refusal)" if not gate_bad else
+               "; ".join(gate_bad)[:500], fa.loc, kind="model")
+
+    def sob(rule_, key_, ok_, *a_, **k_):
+        if gate_bad is None or ok_:
+            rep.ob(rule_, key_, ok_, *a_, **k_)
+    sob(rule61, "_access_attr: the policy is consulted", bool(checks),
            "name = self._check_attr(obj, name, param)" if checks else
            "_access_attr never calls _check_attr: every attribute is reachable with the default accessor", fa.loc)
     for cn in acc_calls:
@@ -552,14 +565,14 @@ def check_mediation(ctx, rep, rule61="R06.1", rule62="R06.2"):
         okdefs = (default_direct or bool(default_defs) or bool(hook_defs)) and all(
             A.find_calls(d.ast, "getattr") and "type(%s)" % p_obj in A.src(d.ast) for d in hook_defs) and \
             (default_direct or "param" not in defs)
-        rep.ob(rule61, "_access_attr: `%s` applies the object's own type-level hook or the operation's default" % A.norm(call)[:40],
+        sob(rule61, "_access_attr: `%s` applies the object's own type-level hook or the operation's default" % A.norm(call)[:40],
                okdefs, "accessor: %s" % ("the default operation" if default_direct else [d.text() for d in defs if d != "param"])
                if okdefs else "the accessor can be something other than getattr(type(obj), overrider, None) / default: %s"
                % [d.text() if d != "param" else "param" for d in defs], ctx.loc(cn))
         if default_direct:
             namedefs = rd.at(cn, p_name)
             okp = bool(namedefs) and all(x in checks for x in namedefs)
-            rep.ob(rule61, "_access_attr: with the default accessor the name is the one _check_attr returned", okp,
+            sob(rule61, "_access_attr: with the default accessor the name is the one _check_attr returned", okp,
                    "every definition of the name reaching `%s` is the result of self._check_attr" % A.norm(call)[:40] if okp else
                    "the default accessor can be applied to a name that did not pass _check_attr", ctx.loc(cn))
         for dd in default_defs:
@@ -569,7 +582,7 @@ def check_mediation(ctx, rep, rule61="R06.1", rule62="R06.2"):
                 before = any(c.id in dom[dd.id] for c in checks)
                 namedefs = rd.at(cn, p_name)
                 okp = before and all(x in checks for x in namedefs)
-            rep.ob(rule61, "_access_attr: with the default accessor the name is the one _check_attr returned", okp,
+            sob(rule61, "_access_attr: with the default accessor the name is the one _check_attr returned", okp,
                    "name = self._check_attr(obj, name, param) lies on every path from `accessor = default` to the access"
                    if okp else "the default accessor can be applied to a name that did not pass _check_attr",
                    ctx.loc(dd), witness=ctx.path(bad) if bad and not okp else None)
@@ -577,12 +590,12 @@ def check_mediation(ctx, rep, rule61="R06.1", rule62="R06.2"):
             # the hook is only called when it exists: the call is not reachable with accessor None unless replaced by default
             pass
         okcall = [A.src(a) for a in call.args] == [p_obj, p_name, "*" + p_args]
-        rep.ob(rule61, "_access_attr: `%s` applies (obj, name, *args) unchanged" % A.norm(call)[:40], okcall,
+        sob(rule61, "_access_attr: `%s` applies (obj, name, *args) unchanged" % A.norm(call)[:40], okcall,
                "`%s`" % A.src(call) if okcall else "the access is `%s`" % A.src(call), ctx.loc(call))
     for c in checks:
         for cc in A.find_calls(c.ast, "self._check_attr"):
             oka = [A.src(a) for a in cc.args] == [p_obj, p_name, p_param]
-            rep.ob(rule61, "_access_attr: _check_attr is asked about this object, this name, this operation", oka,
+            sob(rule61, "_access_attr: _check_attr is asked about this object, this name, this operation", oka,
                    "self._check_attr(%s, %s, %s)" % (p_obj, p_name, p_param) if oka else
                    "_check_attr is called with %s" % [A.src(a) for a in cc.args], ctx.loc(cc))
     # objects with their own hook decide instead of the configuration: no configuration switch is evaluated on the way to a
@@ -605,7 +618,7 @@ def check_mediation(ctx, rep, rule61="R06.1", rule62="R06.2"):
             if conds.get("%s is None" % call.func.id) is True or conds.get("%s is not None" % call.func.id) is False:
                 continue
             on_hook_path.append(t)
-        rep.ob("R06.4" if rule61 == "R06.1" else rule61, "_access_attr: objects with their own hook are not subject to the configuration switches",
+        sob("R06.4" if rule61 == "R06.1" else rule61, "_access_attr: objects with their own hook are not subject to the configuration switches",
                not on_hook_path, "no configuration test lies on the path to the hook call" if not on_hook_path else
                "`%s` is evaluated before the object's own hook is consulted: the connection's allow_* switch overrides hook-bearing "
                "objects (restricted views become unwritable / unreadable)" % on_hook_path[0].text()[:50],
@@ -1110,3 +1123,81 @@ def _config_model(ctx, rep):
     rep.ob("R06.9", "Connection.__init__: configuration = defaults overridden by the caller's dictionary, value for value", not bad,
            "%d caller configurations, incl. None / False / 0 / '' values and unknown keys" % rows if not bad else "; ".join(bad[:2]),
            fi.loc, kind="table")
+
+
+def _access_gate_model(ctx, fa):
+    """list of deviations of Connection._access_attr on model objects, or None when it cannot be interpreted"""
+    from .. import miniinterp as MI
+    conn = ctx.cls(K.CONN)
+    meths = {n_: m_.node for n_, m_ in conn.methods.items() if n_ != "_check_attr"}
+    bad = []
+    try:
+        for label, has_hook, name, refuse in (("object with its own hook", True, "attr", False),
+                                              ("object whose own hook refuses with AttributeError", True, "attr", "hook"),
+                                              ("plain object", False, "attr", False),
+                                              ("plain object, name given as bytes", False, b"attr", False),
+                                              ("object with its own hook, name given as bytes", True, b"attr", False),
+                                              ("plain object, the policy refuses", False, "attr", True),
+                                              ("plain object, name is an int", False, 5, False),
+                                              ("object with its own hook, name is a tuple", True, ("attr",), False)):
+            log = []
+
+            def hook(o, n, *a, log=log, refuse=refuse):
+                log.append(("hook", o, n, a))
+                if refuse == "hook":
+                    raise MI.Raised("AttributeError")      # the object's own decision: final, no fall-back to the configuration
+                return "HOOK-RESULT"
+
+            def default(o, n, *a, log=log):
+                log.append(("default", o, n, a))
+                return "DEFAULT-RESULT"
+            CLS = MI.ModelObj("class of obj", {"_rpyc_over": hook} if has_hook else {})
+            OBJ = MI.ModelObj("obj", {}, cls=CLS)
+
+            def check(o, n, p, log=log, refuse=refuse):
+                log.append(("check", o, n, p))
+                if refuse is True:
+                    raise MI.Raised("AttributeError")
+                return "CHECKED:%s" % n
+            cfgd = _AllOff()
+            extra = {"__calls__": {"self._check_attr": check}, "__methods__": meths, "__max_iter__": 100}
+            extra["__global_lookup__"] = K.module_function_lookup(ctx, fa.module, extra)
+            try:
+                got = MI.call_method(fa.node, {"_config": cfgd}, [OBJ, name, ("X",), "_rpyc_over", "allow_op", default], extra)
+            except MI.Raised as r_:
+                got = "raises %s" % r_.name
+            text = name.decode("utf8") if isinstance(name, bytes) else name
+            if not isinstance(text, str):
+                want_log, want = [], "raises TypeError"
+            elif has_hook:
+                want_log, want = [("hook", OBJ, text, ("X",))], "HOOK-RESULT" if refuse != "hook" else "raises AttributeError"
+            elif refuse:
+                want_log, want = [("check", OBJ, text, "allow_op")], "raises AttributeError"
+            else:
+                want_log, want = [("check", OBJ, text, "allow_op"), ("default", OBJ, "CHECKED:" + text, ("X",))], "DEFAULT-RESULT"
+            if log != want_log or got != want or cfgd.asked:
+                bad.append("%s: %s -> %r%s (expected %s -> %r)" % (
+                    label, [(e_[0],) + tuple(e_[2:]) for e_ in log], got,
+                    ", after reading the switch(es) %s" % cfgd.asked if cfgd.asked else "",
+                    [(e_[0],) + tuple(e_[2:]) for e_ in want_log], want))
+    except AnalysisError:
+        return None
+    return bad
+
+
+class _AllOff(dict):
+    """a configuration in which every switch is off; records which ones _access_attr itself reads (it should read none: the
+    policy lives in _check_attr, and objects with their own hook are not subject to it)"""
+    mi_native = True
+
+    def __init__(self):
+        dict.__init__(self)
+        self.asked = []
+
+    def __getitem__(self, k):
+        self.asked.append(k)
+        return False
+
+    def get(self, k, d=None):
+        self.asked.append(k)
+        return False
